@@ -191,7 +191,10 @@ def fast_cover_paths(g, rng, max_paths=None, full=True, max_len=400, want_termin
                         q.append((d, r + 1))
         return None
 
-    for u in reversed(order):
+    todo = list(reversed(order))      # deepest first: the way to a deep state covers the tree edges above it
+    if max_paths is not None:
+        rng.shuffle(todo)             # a capped cover samples the edges uniformly instead
+    for u in todo:
         idxs = list(range(len(out[u])))
         rng.shuffle(idxs)
         for i in idxs:
@@ -227,18 +230,41 @@ def fast_cover_paths(g, rng, max_paths=None, full=True, max_len=400, want_termin
     return paths, len(covered), total
 
 
-def run_jobs(ctx, jobs, par=3):
-    errs = []
+def sub_ctx(ctx, tag):
+    """Per-job view of the check context: own counters, model list and (reproducible) random stream, shared
+    violation / sample / assumption lists.  framework.graph_replay updates `ctx.models[-1]` and the counters
+    without locking, so jobs running in parallel must not share them; merged by run_jobs."""
+    import copy
+    import random
+    s = copy.copy(ctx)
+    s.states = s.transitions = s.traces = s.steps = 0
+    s.models = []
+    s.exhaustive = True
+    s.rng = random.Random("%s:%s" % (ctx.seed, tag))
+    return s
 
-    def one(j):
+
+def run_jobs(ctx, jobs, par=3):
+    """jobs: list of (tag, fn(sub context))"""
+    errs = []
+    subs = [sub_ctx(ctx, tag) for tag, _ in jobs]
+
+    def one(k):
         if len(ctx.violations) >= 3:
             return
         try:
-            j()
+            jobs[k][1](subs[k])
         except Exception as e:   # re-raised in the main thread
             errs.append(e)
     with ThreadPoolExecutor(max_workers=par) as ex:
-        list(ex.map(one, jobs))
+        list(ex.map(one, range(len(jobs))))
+    for s in subs:
+        ctx.states += s.states
+        ctx.transitions += s.transitions
+        ctx.traces += s.traces
+        ctx.steps += s.steps
+        ctx.models += s.models
+        ctx.exhaustive = ctx.exhaustive and s.exhaustive
     if errs:
         raise errs[0]
 
@@ -262,14 +288,17 @@ def run(ctx):
     jobs = []
 
     def seq(tag, kinds, **kw):
-        jobs.append(lambda: run_seq(ctx, rp, tag, kinds, **kw))
+        jobs.append((tag, lambda c: run_seq(c, rp, tag, kinds, **kw)))
 
     def conc(tag, kinds, **kw):
-        jobs.append(lambda: run_conc(ctx, rpc, tag, kinds, **kw))
+        jobs.append((tag, lambda c: run_conc(c, rpc, tag, kinds, **kw)))
     LGO, LGT, LFT = ["loop", "gated", "cbonce"], ["loop", "gated", "cbt"], ["loop", "cbf", "cbt"]
+    # edge covers of 10^4..10^5-edge graphs: see fast_cover_paths (same contract as vlib.cover_paths, which
+    # framework.graph_replay looks up at call time; this process runs only this check)
+    vlib.cover_paths = fast_cover_paths
     if ctx.quick:
         ctx.exhaustive = False
-        cap = dict(max_paths=400, extra_random=100)
+        cap = dict(max_paths=5000, extra_random=200)
         # every history (Strict = FALSE: also the undisciplined ones) replayed on the real signal<int>/<void>
         seq("n_lgo", LGO, max_emit=2, **cap)
         seq("c_lgt", LGT, coro=True, max_emit=2, **cap)
@@ -287,9 +316,6 @@ def run(ctx):
         for i, m in enumerate(extra[:3]):
             conc("x_r%d" % i, m, nemit=2, form="lvalue" if i % 2 else "rvalue", max_paths=300)
     else:
-        # full edge covers of 10^5-edge graphs: see fast_cover_paths (same contract as vlib.cover_paths, which
-        # framework.graph_replay looks up at call time; this process runs only this check)
-        vlib.cover_paths = fast_cover_paths
         for coro in (False, True):
             c = "c" if coro else "n"
             seq(c + "_lgo", LGO, coro=coro, max_emit=3, max_paths=50000 if coro else None, replay_timeout=3000)
